@@ -73,6 +73,50 @@ def run(ctx):
             ctx.violation("R13.1", "protocol", "notify_one stores a single permit but two workers (fs, keyboard) wait for config changes", sc.loc(sc.line))
         else:
             ctx.incomplete("R13.1", "protocol", "unknown change-signal primitive %s" % n, sc.loc(sc.line))
+        # the subscription's own table: the first call returns at once (so the initial configuration is applied), later calls
+        # return exactly when a change was seen; a closed channel parks the worker for good
+        cn = ctx.anchor_fn("R13.1", "watchexec::config::ConfigWatched::new")
+        v = thir.expr_value(thir.root(cn))
+        ctx.require(v[0] == "v" and v[3].get("first_run") == ("b", True) and v[3].get("changes") == ("var", "changes"), "R13.1", "subscription-new",
+                    "a new subscription has first_run = true and the given receiver", cn.loc(cn.line), detail=str(v)[:200],
+                    fail="a new ConfigWatched does not start in the first-run state: the configuration present at start-up is never applied")
+        if n.startswith("tokio::sync::watch::Sender::send"):
+            from ..throttle import implies
+            FR = "self.first_run"
+            ERR = "Result::is_err(await Receiver::changed(self.changes))"
+            rows = {"first": 0, "changed": 0, "closed": 0}
+            badp = []
+            for q in pathx.Enum().paths(thir.root(nx)):
+                fr = err = None
+                for e in q.ev:
+                    if e[0] == "branch":
+                        for atom, tgt in ((FR, "fr"), (ERR, "err")):
+                            if implies(e[1].replace("Result::is_ok(", "Not Result::is_err("), e[2], atom, True):
+                                fr, err = (True, err) if tgt == "fr" else (fr, True)
+                            elif implies(e[1].replace("Result::is_ok(", "Not Result::is_err("), e[2], atom, False):
+                                fr, err = (False, err) if tgt == "fr" else (fr, False)
+                waits = [e for e in q.ev if e[0] == "call" and strip_generics(e[1]).endswith("watch::Receiver::changed")]
+                parks = [e for e in q.ev if e[0] == "call" and strip_generics(e[1]).endswith("pending::pending")]
+                clr = [e for e in q.ev if e[0] == "assign" and e[1] == FR and e[2] == "False"]
+                sh = pathx.show_events(q.ev)
+                if fr is True:
+                    rows["first"] += 1
+                    if waits or parks or not clr:
+                        badp.append("first call: " + sh)
+                elif fr is False and err is False:
+                    rows["changed"] += 1
+                    if len(waits) != 1 or parks:
+                        badp.append("after a change: " + sh)
+                elif fr is False and err is True:
+                    rows["closed"] += 1
+                    if len(waits) != 1 or len(parks) != 1:
+                        badp.append("config gone: " + sh)
+                else:
+                    badp.append("undetermined: " + sh)
+            ctx.require(not badp and all(rows.values()), "R13.1", "subscription-table",
+                        "next(): first call -> returns at once and clears first_run; later -> awaits changed() once and returns; closed -> parks forever",
+                        nx.loc(nx.line), detail="; ".join(badp)[:500],
+                        fail="ConfigWatched::next no longer follows its table: " + "; ".join(badp)[:300])
         # both workers wait through ConfigWatched
         users = []
         for fn in facts.crate_fns(LIB):
@@ -262,6 +306,14 @@ def run(ctx):
             ctx.violation("R13.8", "floor:keyboard-match", "the keyboard worker no longer matches on (enabled, close handle)", kw.loc(kw.line))
         else:
             m = ms[0]
+            kloops = [n for n in thir.find(thir.root(kw), "loop") if not n.get("x")]
+            firsts = set()
+            for q in (pathx.Enum(interesting=interesting).paths(kloops[0]["e"]) if len(kloops) == 1 else []):
+                c0 = [e for e in q.ev if e[0] in ("call", "await", "arm", "branch", "assign")][:2]
+                firsts.add(tuple((e[0], tuple(strip_generics(e[1]).split("::")[-2:]) if e[0] == "call" else None) for e in c0))
+            ctx.require(firsts == {(("call", ("ConfigWatched", "next")), ("await", None))}, "R13.8", "keyboard-await-first",
+                        "every round of the keyboard worker first awaits the configuration-change subscription", kw.loc(kw.line), detail=str(firsts)[:200],
+                        fail="the keyboard worker loops without awaiting ConfigWatched::next: it spins, starving the runtime thread it runs on")
             sc = pathx.desc(m["e"]).replace("^", "")
             ctx.require(sc == "(Changeable::get(config.keyboard_events), send_close)", "R13.8", "keyboard-scrutinee", "the decision reads config.keyboard_events and the close handle",
                         kw.loc(m["l"]), detail=sc)
